@@ -18,25 +18,37 @@
 (*    (Before 107e76a it was a test on the directory depth,                *)
 (*    core_dir.parent == root \/ core_dir.parent.parent == root, which      *)
 (*    missed a shared core three packages deep: findings C11-F1..F4.)      *)
+(*    "Inside" is a relation on package PATHS (sequences of name         *)
+(*    segments): p is inside q iff q is a segment-wise prefix of p.  The   *)
+(*    names themselves are atoms here - whether `shop_core` happens to     *)
+(*    start with `shop` as a STRING is invisible to the specification, so  *)
+(*    the specification says that the spelling of the names must not       *)
+(*    matter; the replay concretises the same layouts with unrelated and   *)
+(*    with prefix-related names (the code may approximate the relation by  *)
+(*    string operations on dotted names or directory paths).               *)
 (*  * `if not force and out_dir.exists()` generates into a temp tree and   *)
 (*    only compares - the project itself is never written on that path     *)
 (*    (the step is "not applied", whether the comparison raises or not).   *)
 (*                                                                         *)
-(* depth = 0 stands for the embedded layout (no core_package argument:     *)
-(* every client has its private `<client>.core`), depth d >= 1 for one     *)
-(* shared core package d packages deep (`core`, `a.core`, `a.b.core`,      *)
-(* `a.b.c.core`).                                                          *)
+(* A layout says where the packages live: `pkg[c]` is the path of client  *)
+(* c's package, `core` the path of the one core package all clients are    *)
+(* told to use (<<>> = no core_package argument: every client gets its     *)
+(* embedded `<client>.core`); `depth` = Len(core) (0 = embedded) and `id`   *)
+(* only name the layout.  Layouts used: core d packages deep (`core`,      *)
+(* `a.core`, `a.b.core`, `a.b.c.core`) with clients that are siblings of   *)
+(* the core (`a.c1`), one package below a sibling (`a.c1.api`) or in an    *)
+(* unrelated branch (`c1` with `a.core`).                                  *)
 (***************************************************************************)
 EXTENDS Naturals, FiniteSets, Sequences
 
 CONSTANTS
   Clients,    \* set of client identities (strings)
   CodeSets,   \* the sets of declared error statuses a generated spec may have (a set of sets of ints)
-  Depths,     \* core depths explored (subset of 0..4)
+  Layouts,    \* set of layouts [id, depth, core : path, pkg : Clients -> path]
   MaxLen      \* histories have at most MaxLen generate calls
 
 VARIABLES
-  depth,      \* core depth of this project (fixed along a behaviour)
+  layout,     \* the layout of this project (fixed along a behaviour)
   registry,   \* .exception_registry.json of the shared core: partial function Client -> SUBSET Codes
   aliases,    \* status codes that have a class in the shared core's exception_aliases.py
   needs,      \* Client -> SUBSET Codes: the alias classes the client's endpoint modules import
@@ -44,22 +56,28 @@ VARIABLES
   priv,       \* embedded layout only: Client -> codes with a class in the client's private core
   n           \* number of generate calls so far
 
-vars == <<depth, registry, aliases, needs, generated, priv, n>>
+vars == <<layout, registry, aliases, needs, generated, priv, n>>
 
 Codes == UNION CodeSets
 Range(f) == {f[x] : x \in DOMAIN f}
 NoRegistry == [x \in {} |-> {}]
+depth == layout.depth
 
-\* exceptions_emitter.py:_is_shared_core - core_package == client_package \/ core_package starts with client_package + "."
-\* In the layouts of this model that is the case exactly for the embedded layout (`<client>.core`), at any package depth.
-CoreInsideClient(d) == d = 0
-SharedDetected(d) == ~CoreInsideClient(d)
+\* ---- the layout as a relation on package paths
+Embedded == layout.core = <<>>
+CorePath(c) == IF Embedded THEN layout.pkg[c] \o <<"core">> ELSE layout.core
+\* p is q itself or a sub-package of q
+Inside(p, q) == Len(q) <= Len(p) /\ SubSeq(p, 1, Len(q)) = q
+
+\* exceptions_emitter.py:_is_shared_core(core_dir, client_package): the core is private exactly when
+\* core_package == client_package \/ core_package starts with client_package + "."  (i.e. Inside), else shared
+SharedDetected(c) == ~Inside(CorePath(c), layout.pkg[c])
 
 \* client_generator.py: `if not force and out_dir.exists(): <temp tree + diff>` else direct generation
 Applied(c, force) == force \/ c \notin generated
 
 Init ==
-  /\ depth \in Depths
+  /\ layout \in Layouts
   /\ registry = NoRegistry
   /\ aliases = {}
   /\ needs = [c \in Clients |-> {}]
@@ -67,33 +85,33 @@ Init ==
   /\ priv = [c \in Clients |-> {}]
   /\ n = 0
 
-Generate(c, codes, force, d) ==
-  /\ d = depth
+Generate(c, codes, force, lid) ==
+  /\ lid = layout.id
   /\ n < MaxLen
   /\ n' = n + 1
-  /\ UNCHANGED depth
+  /\ UNCHANGED layout
   /\ IF ~Applied(c, force)
      THEN UNCHANGED <<registry, aliases, needs, generated, priv>>
      ELSE /\ generated' = generated \cup {c}
           /\ needs' = [needs EXCEPT ![c] = codes]
-          /\ IF d = 0
+          /\ IF Embedded
              THEN /\ priv' = [priv EXCEPT ![c] = codes]      \* private core: rewritten from this client's spec only
                   /\ UNCHANGED <<registry, aliases>>
              ELSE /\ UNCHANGED priv
-                  /\ IF SharedDetected(d)
+                  /\ IF SharedDetected(c)
                      THEN LET r == [x \in DOMAIN registry \cup {c} |-> IF x = c THEN codes ELSE registry[x]] IN
                             /\ registry' = r
                             /\ aliases' = UNION Range(r)
                      ELSE /\ UNCHANGED registry
                           /\ aliases' = codes               \* exception_aliases.py rewritten from THIS spec only
 
-Next == \E c \in Clients, codes \in CodeSets, force \in BOOLEAN, d \in Depths : Generate(c, codes, force, d)
+Next == \E c \in Clients, codes \in CodeSets, force \in BOOLEAN, l \in Layouts : Generate(c, codes, force, l.id)
 
 Spec == Init /\ [][Next]_vars
 
 ----------------------------------------------------------------------------
 TypeOK ==
-  /\ depth \in Depths
+  /\ layout \in Layouts
   /\ DOMAIN registry \subseteq Clients
   /\ \A c \in DOMAIN registry : registry[c] \subseteq Codes
   /\ aliases \subseteq Codes
@@ -102,8 +120,12 @@ TypeOK ==
   /\ generated \subseteq Clients
   /\ n \in 0..MaxLen
 
+\* the layouts of this model: all clients are told to use the same core, and it is outside every client package
+\* (or every client has its own embedded core)
+LayoutOK == Embedded \/ \A c \in Clients : ~Inside(layout.core, layout.pkg[c])
+
 \* the alias classes a client can import from the core package it uses
-Visible(c) == IF depth = 0 THEN priv[c] ELSE aliases
+Visible(c) == IF Embedded THEN priv[c] ELSE aliases
 
 (* C11: every client generated so far still finds every alias class it imports. *)
 Served == \A c \in generated : needs[c] \subseteq Visible(c)
@@ -113,10 +135,10 @@ NeverShrinksNeededStep ==
   \A c \in generated : needs'[c] = needs[c] => (needs[c] \cap Visible(c)) \subseteq Visible(c)'
 NeverShrinksNeeded == [][NeverShrinksNeededStep]_vars
 
-(* the mechanism: whenever the registry is in use it knows every generated client with all its codes *)
+(* the mechanism: whenever the core is shared the registry knows every generated client with all its codes *)
 RegistryKeepsClients ==
-  SharedDetected(depth) => \A c \in generated : c \in DOMAIN registry /\ needs[c] \subseteq registry[c]
+  ~Embedded => \A c \in generated : SharedDetected(c) => (c \in DOMAIN registry /\ needs[c] \subseteq registry[c])
 
 (* with a registry the aliases are exactly the union over the registered clients *)
-AliasesAreUnion == SharedDetected(depth) => aliases = UNION Range(registry)
+AliasesAreUnion == (~Embedded /\ \A c \in Clients : SharedDetected(c)) => aliases = UNION Range(registry)
 =============================================================================
